@@ -2,7 +2,74 @@
 #include "harness.h"
 #include <string.h>
 void oracle_misuse_op(const Op& op) { (void)op; H.ops_noop++; }
-void oracle_bad_request(const Op& op) { (void)op; H.ops_noop++; }
+
+// C06: malformed or oversized requests fail cleanly and have no other effect
+size_t heap_used_sum(mi_heap_t* h, size_t* pages);
+#include <errno.h>
+#include <stdint.h>
+void oracle_bad_request(const Op& op) {
+  const int kind = (int)op.a;
+  const size_t n = (size_t)op.b;          // a small well-formed size used where one is needed
+  Block* b = (op.slot >= 0 && op.slot < (int)H.slots.size()) ? H.slots[op.slot] : nullptr;
+  const bool needs_block = (kind >= 15 && kind <= 22);
+  if (needs_block && !b) { H.ops_noop++; return; }
+  mi_heap_t* dh = heap_ptr(T->deflt);
+  size_t pages0 = 0; const size_t used0 = dh ? heap_used_sum(dh, &pages0) : 0;
+  const size_t mapped0 = os_mapped_bytes();
+  expect_errors(EB_EOVERFLOW | EB_ENOMEM);
+  void* p = b ? b->p : nullptr; void* r = (void*)(uintptr_t)1; int rc = 0; bool want_null = true; bool freed = false;
+  const size_t HUGE1 = SIZE_MAX - 8, PD1 = (size_t)PTRDIFF_MAX + 1 + (n % 4096);
+  void* outp = (void*)(uintptr_t)0x5A5A5A5A;
+  errno = 0;
+  switch (kind) {
+    case 0: r = mi_malloc(HUGE1 - (n % 64)); break;
+    case 1: r = mi_malloc(PD1); break;
+    case 2: r = mi_calloc(SIZE_MAX / 2 + 1 + n, 2); break;
+    case 3: r = mi_calloc((size_t)1 << 33, (size_t)1 << 33); break;
+    case 4: r = mi_mallocn(SIZE_MAX / 3, 4 + (n % 5)); break;
+    case 5: r = mi_zalloc(SIZE_MAX - 7 - (n % 8)); break;
+    case 6: r = mi_malloc_aligned(n, 0); break;
+    case 7: r = mi_malloc_aligned(n, 3); break;
+    case 8: r = mi_zalloc_aligned(n, 24 + 8 * (n % 3 == 0 ? 0 : 3)); break;      // 24 or 48: not a power of two
+    case 9: r = mi_malloc_aligned(SIZE_MAX - 100 - (n % 64), 64); break;
+    case 10: rc = mi_posix_memalign(&outp, 0, n); r = nullptr; if (rc != EINVAL) sim_violation("bad_request", "mi_posix_memalign(alignment 0) returned %d instead of EINVAL", rc); break;
+    case 11: rc = mi_posix_memalign(&outp, 4, n); r = nullptr; if (rc != EINVAL) sim_violation("bad_request", "mi_posix_memalign(alignment 4) returned %d instead of EINVAL", rc); break;
+    case 12: rc = mi_posix_memalign(&outp, 24, n); r = nullptr; if (rc != EINVAL) sim_violation("bad_request", "mi_posix_memalign(alignment 24) returned %d instead of EINVAL", rc); break;
+    case 13: rc = mi_posix_memalign(&outp, 64, SIZE_MAX - 100); r = nullptr; if (rc != ENOMEM) sim_violation("bad_request", "mi_posix_memalign(size SIZE_MAX-100) returned %d instead of ENOMEM", rc); break;
+    case 14: r = mi_pvalloc(SIZE_MAX - 100 - (n % 4000)); break;
+    case 15: r = mi_realloc(p, HUGE1); break;
+    case 16: r = mi_reallocn(p, SIZE_MAX / 2, 4); break;
+    case 17: r = mi_recalloc(p, (size_t)1 << 40, (size_t)1 << 40); break;
+    case 18: r = mi_reallocarray(p, SIZE_MAX / 4, 8); if (r == nullptr && errno != ENOMEM) sim_violation("bad_request", "mi_reallocarray overflow: errno is %d, not ENOMEM", errno); break;
+    case 19: { void* pp = p; rc = mi_reallocarr(&pp, SIZE_MAX / 4, 8); r = nullptr; if (rc == 0) sim_violation("bad_request", "mi_reallocarr accepted an overflowing request"); if (pp != p) sim_violation("bad_request", "mi_reallocarr failed but changed the pointer"); if (errno != ENOMEM) sim_violation("bad_request", "mi_reallocarr overflow: errno is %d", errno); break; }
+    case 20: model_remove(b); H.slots[b->slot] = nullptr; block_verify(b, "before reallocf"); r = mi_reallocf(p, HUGE1); freed = true; break;   // released inside the call
+    case 21: r = mi_realloc_aligned(p, SIZE_MAX - 100, 64); break;
+    case 22: r = mi_rezalloc_aligned(p, n + 100, 24); break;
+    case 23: expect_errors(EB_ENOMEM); r = mi_new_nothrow(HUGE1); break;
+    case 24: { mi_heap_t* h = dh; r = h ? mi_heap_malloc(h, PD1) : nullptr; break; }
+    case 25: r = mi_aligned_alloc(3, n); break;
+    case 26: r = mi_memalign(0, n); break;
+    case 27: r = mi_malloc_aligned_at(n, (size_t)64 << 20, 64); break;      // offset != 0 beyond half a segment: documented not to be supported
+    case 28: { mi_heap_t* h = dh; r = h ? mi_heap_calloc(h, SIZE_MAX / 8, 16) : nullptr; break; }
+    case 29: r = mi_zalloc_aligned_at(HUGE1, 16, 8); break;
+    default: H.ops_noop++; return;
+  }
+  (void)want_null;
+  if (r != nullptr && r == p && kind == 22) sim_violation("bad_request", "mi_rezalloc_aligned with an alignment that is not a power of two (24) returned the unchanged block %p instead of NULL", r);
+  if (r != nullptr) sim_violation("bad_request", "malformed request kind %d returned a non-NULL pointer %p", kind, r);
+  if (kind >= 10 && kind <= 13 && outp != (void*)(uintptr_t)0x5A5A5A5A) sim_violation("bad_request", "mi_posix_memalign failed (%d) but modified its out-parameter", rc);
+  // no other effect on the block being re-allocated ...
+  if (b) {
+    if (freed) { delete b; }
+    else block_verify(b, "after a failed re-allocation");
+  }
+  // ... nor on the heap
+  size_t pages1 = 0; const size_t used1 = dh ? heap_used_sum(dh, &pages1) : 0;
+  if (used1 + (freed ? 1 : 0) != used0 && !(freed && used1 == used0)) sim_violation("bad_request", "malformed request kind %d changed the number of used blocks of the heap: %zu -> %zu", kind, used0, used1);
+  if (os_mapped_bytes() > mapped0) sim_violation("bad_request", "malformed request kind %d left a new OS mapping behind (%zu -> %zu bytes mapped)", kind, mapped0, os_mapped_bytes());
+  probe(PR_misuse_detected, 0);
+}
+
 
 // C18: memory unused for longer than the delay is purged by ordinary later activity (no forced collect)
 static bool is_purge_kind(int k) { return k == OS_MADV_DONTNEED || k == OS_MADV_FREE || k == OS_MPROTECT_NONE; }
